@@ -16,6 +16,7 @@ import (
 	"sort"
 	"strconv"
 	"strings"
+	"time"
 
 	"github.com/quay/claircore"
 	"github.com/quay/claircore/apk"
@@ -225,10 +226,15 @@ func distsOf(ir *claircore.IndexReport) string {
 }
 
 func (h *harness) sectionPipeline() {
-	ctx, r := h.ctx, h.r
+	r := h.r
 	rounds := h.cfg.N(3, 30)
 	for round := 0; round < rounds && !r.Stop(); round++ {
+		ctx, cancel := context.WithTimeout(h.ctx, 3*time.Minute)
 		h.pipelineRound(ctx, round)
+		if ctx.Err() != nil {
+			r.Fail("", "pipeline: a round did not finish within three minutes (hang)")
+		}
+		cancel()
 	}
 }
 
